@@ -284,6 +284,11 @@ impl PngImage {
         if ihdr.width == 0 || ihdr.height == 0 {
             return Err(PngError::InvalidData);
         }
+        // Deflate cannot expand data by more than 1032:1, so a larger image size can never be
+        // filled by this data; reject it before allocating the buffer
+        if ihdr.raw_data_size() / 1032 > compressed_data.len() {
+            return Err(PngError::TruncatedData);
+        }
         let raw_data = deflate::inflate(compressed_data, ihdr.raw_data_size())?;
 
         // Reject files with incorrect width/height or truncated data
